@@ -206,7 +206,8 @@ class Net(nn.Module):
                 ms = []
                 for j, m in enumerate(st['members']):
                     ms.append(x if m == 'id' else self.blocks[f's{i}m{j}'](x))
-                x = torch.cat(ms, dim=1)
+                # the channel axis spelled as 1 or, equivalently, with a negative index (-2 in 1D, -3 in 2D)
+                x = torch.cat(ms, dim=-(self.prog['dim'] + 1) if st.get('negc') else 1)
             elif op == 'timecat':
                 # the time axis spelled as 2 or, equivalently, as -1
                 x = torch.relu(torch.cat([self.blocks[f's{i}a'](x), self.blocks[f's{i}b'](x)], dim=-1 if st.get('neg') else 2))
@@ -526,6 +527,9 @@ def option_deviations(prog, with_fold=True):
         elif s['op'] == 'concat':
             q = _copy(prog)
             q['stages'][i]['k'] = 5
+            out.append(q)
+            q = _copy(prog)
+            q['stages'][i]['negc'] = True
             out.append(q)
         elif s['op'] == 'timecat':
             q = _copy(prog)
